@@ -148,31 +148,68 @@ theorem parse_by_trait (o : Options) (g : GenFull) (h : genFull o f t = .ok g)
   have hn : (g.base.cases.flatMap (·.consts)).Nodup := by simpa using hdup.1.1
   exact C05.parse_of_case g.base hn c hc d hd
 
+/-- the constant of every row of every parsable trait is a key of its value's `case` — listed by
+the trait itself or, when `validateParsableTraits` marked it as a repeat, by the EARLIEST parsable
+trait (column order) that carries the same constant on the same value -/
+private theorem dyn_in_case {o : Options} {g : GenFull} (h : genFull o f t = .ok g) (ha : Accepted f t.name k)
+    (first : Option Value) (n : Nat) :
+    ∀ td ∈ g.traits, td.parsable = true → td.col = n → ∀ r ∈ td.rows,
+      r.dyn ∈ caseConsts g.traits first r.owner := by
+  induction n using Nat.strongRecOn with
+  | _ n ih =>
+    intro td htd hp hcol r hr
+    obtain ⟨hown, _, huniq⟩ := row_facts h ha td htd r hr
+    have hinst : td.instanceOf r.owner = some r := by
+      unfold TraitDesc.instanceOf
+      cases hf : td.rows.find? (fun x => x.owner.name == r.owner.name) with
+      | none =>
+        rw [List.find?_eq_none] at hf
+        exact absurd (by simp) (hf r hr)
+      | some r' =>
+        have := huniq r' (List.mem_of_find?_eq_some hf) (by simpa using List.find?_some hf)
+        rw [this]
+    by_cases hrep : repeatsParseKey {} g.traits first td r = true
+    · unfold repeatsParseKey at hrep
+      rw [List.any_eq_true] at hrep
+      obtain ⟨t', ht', hc⟩ := hrep
+      simp only [Bool.and_eq_true, decide_eq_true_eq, List.any_eq_true, Bool.false_eq_true, if_false,
+        beq_iff_eq] at hc
+      obtain ⟨⟨hp', hlt⟩, r', hr', hname, hdyn⟩ := hc
+      have hin := ih t'.col (hcol ▸ hlt) t' ht' hp' rfl r' hr'
+      obtain ⟨hown', _, _⟩ := row_facts h ha t' ht' r' hr'
+      obtain ⟨c, hc, _, hcv⟩ := mem_sortedValues.mp hown
+      obtain ⟨c', hc', _, hcv'⟩ := mem_sortedValues.mp hown'
+      have hce : c' = c := const_eq_of_name ha.names hc' hc (by
+        have h1 : (Value.ofConst c').name = (Value.ofConst c).name := by rw [hcv', hcv]; exact hname
+        exact h1)
+      have hoe : r'.owner = r.owner := by rw [← hcv', ← hcv, hce]
+      rw [hdyn, hoe] at hin
+      exact hin
+    · unfold caseConsts
+      rw [List.mem_flatten]
+      refine ⟨[r.dyn], List.mem_map.mpr ⟨td, List.mem_filter.mpr ⟨htd, by simpa using hp⟩, ?_⟩, by simp⟩
+      unfold caseOne
+      rw [hinst]
+      simp [hrep]
+
 /-- `parse_by_trait` on the declaration side: for every parsable trait of an accepted generation
-and every row it keeps, `Parse<T>` of the row's typed constant returns the row's value. -/
+and every row it keeps, `Parse<T>` of the row's typed constant returns the row's value — also when
+the constant stands in several parsable trait columns of one line (the same type: listed once;
+different types: one key each). -/
 theorem parse_row (o : Options) (g : GenFull) (h : genFull o f t = .ok g) (ha : Accepted f t.name k)
     (td : TraitDesc) (htd : td ∈ g.traits) (hp : td.parsable = true) (r : TraitRow) (hr : r ∈ td.rows) :
     g.base.parse r.dyn = some r.owner.val := by
-  obtain ⟨hown, _, huniq⟩ := row_facts h ha td htd r hr
+  obtain ⟨hown, _, _⟩ := row_facts h ha td htd r hr
   have hn := C05.cases_nodup h
+  have hin := dyn_in_case h ha (sortedValues f t.name).head? td.col td htd hp rfl r hr
   obtain ⟨ts, _, hg, _⟩ := genFull_ok h
-  have hcase : caseOf ts r.owner ∈ g.base.cases := by
+  have hcase : caseOf ts (sortedValues f t.name).head? r.owner ∈ g.base.cases := by
     subst hg; exact List.mem_map.mpr ⟨_, hown, rfl⟩
-  have htd' : td ∈ ts := by subst hg; exact htd
-  have hone : caseOne r.owner td = [r.dyn] := by
-    unfold caseOne TraitDesc.instanceOf
-    cases hf : td.rows.find? (fun x => x.owner.name == r.owner.name) with
-    | none =>
-      rw [List.find?_eq_none] at hf
-      exact absurd (by simp) (hf r hr)
-    | some r' =>
-      have := huniq r' (List.mem_of_find?_eq_some hf) (by simpa using List.find?_some hf)
-      rw [this]
-  have hmem : r.dyn ∈ (caseOf ts r.owner).consts := by
-    unfold caseOf caseConsts
+  have hts : g.traits = ts := by subst hg; rfl
+  have hmem : r.dyn ∈ (caseOf ts (sortedValues f t.name).head? r.owner).consts := by
+    unfold caseOf
     apply List.mem_cons_of_mem
-    rw [List.mem_flatten]
-    exact ⟨[r.dyn], List.mem_map.mpr ⟨td, List.mem_filter.mpr ⟨htd', by simpa using hp⟩, hone⟩, by simp⟩
+    rw [← hts]; exact hin
   exact C05.parse_of_case g.base hn _ hcase r.dyn hmem
 
 /-- "pairwise distinct values" for the constant of row `r`, on the generated switch: no other
@@ -545,6 +582,45 @@ theorem legacy_rune_family_violates :
       (g.base.parse ⟨"rune", .int 98⟩, g.unmarshalJSON {} (.num 98), g.unmarshalYAML {} "98",
        g.unmarshalJSON {} (.num 99), g.unmarshalJSON {} (.num 4294967394)))
       = some (some 1, some 1, some 1, none, none) := by decide
+
+/-- `Circle, _tint, _code = Shape(iota), NoTint, 0` / `Square, _, _ = Shape(iota), Red, 5`: on the
+line of `Circle` the parsable traits `tint` (type `Tint`, another enum) and `code` (untyped int) both
+carry a constant whose value text is `0` -/
+def tintCols : List TraitCol :=
+  [⟨"tint", "Tint", .self "Tint" true 64 (.ofSwitches true true true)⟩, ⟨"code", "int", .sint 64⟩]
+
+def tintFile : FileDef :=
+  ⟨[{ name := "Shape", kind := ⟨64, true⟩, cols := tintCols }, { name := "Tint", kind := ⟨64, true⟩ }],
+   [{ name := "Circle", ty := "Shape", val := 0, deprecated := false, tvals := [.int 0, .int 0] },
+    { name := "Square", ty := "Shape", val := 1, deprecated := false, tvals := [.int 1, .int 5] },
+    { name := "NoTint", ty := "Tint", val := 0, deprecated := false },
+    { name := "Red", ty := "Tint", val := 1, deprecated := false }]⟩
+
+/-- two untyped int traits with the same constants on every line -/
+def twinFile : FileDef :=
+  ⟨[{ name := "E", kind := ⟨64, true⟩, cols := [⟨"Num", "int", .sint 64⟩, ⟨"Cnt", "int", .sint 64⟩] }],
+   [{ name := "A0", ty := "E", val := 0, deprecated := false, tvals := [.int 3, .int 3] },
+    { name := "A1", ty := "E", val := 1, deprecated := false, tvals := [.int 4, .int 4] }]⟩
+
+/-- the repeat marking of `validateParsableTraits`. /repo 7793249 marked a later parsable trait's
+constant whenever its value TEXT had been seen on the same enum value, whatever the types: the
+`0` of `code` was left out of `Circle`'s case although `Tint(0)` and `0` are different keys, so
+`ParseShape(0)` failed (and JSON / YAML `0`). The current rule (42de8c1) compares the types too:
+both are listed; a repeat under the SAME type (`twinFile`) is listed once — without the marking the
+case would hold the constant twice and not compile — and both traits parse. -/
+theorem legacy_repeat_ignores_type_violates :
+    (genFullQ { repeatIgnoresType := true } { parsable := ["tint", "code"] } tintFile
+        { name := "Shape", kind := ⟨64, true⟩, cols := tintCols }).toOption.map (fun g =>
+      (g.base.parse ⟨"Tint", .int 0⟩, g.base.parse ⟨"int", .int 0⟩, g.unmarshalJSON {} (.num 0), g.base.parse ⟨"int", .int 5⟩))
+      = some (some 0, none, none, some 1) ∧
+    (genFull { parsable := ["tint", "code"] } tintFile
+        { name := "Shape", kind := ⟨64, true⟩, cols := tintCols }).toOption.map (fun g =>
+      (g.base.parse ⟨"Tint", .int 0⟩, g.base.parse ⟨"int", .int 0⟩, g.unmarshalJSON {} (.num 0), g.base.parse ⟨"int", .int 5⟩))
+      = some (some 0, some 0, some 0, some 1) ∧
+    (genFull { parsable := ["Num", "Cnt"] } twinFile
+        { name := "E", kind := ⟨64, true⟩, cols := [⟨"Num", "int", .sint 64⟩, ⟨"Cnt", "int", .sint 64⟩] }).toOption.map (fun g =>
+      (g.base.cases.map (·.consts.length), g.base.parse ⟨"int", .int 4⟩, g.unmarshalYAML {} "3"))
+      = some ([2, 2], some 1, some 0) := by decide
 
 /- `decode_by_trait` is proved for every family the template has a branch for:
    `decode_by_trait_string` (untyped and named strings; JSON, text, YAML), `decode_by_trait_json_int`
